@@ -143,14 +143,58 @@ def g_intforms(c, ops, with_modes=False):
                 iv = jdec((int_class(t, ii), 0))
                 for xc in x_classes_for(t):
                     for pos in (0, 1):
-                        i += 1
-                        op = ops[(i + mi) % len(ops)]
-                        n = i % 19
-                        if pos == 0:
-                            calls.append({'ev': 'bin', 't': 1, 'op': op, 'x': jdec(xc), 'y': iv, 'xt': 'dec', 'yt': t, 'n': n, 'acc': 0, 'form': i % 4})
-                        else:
-                            calls.append({'ev': 'bin', 't': 1, 'op': op, 'x': iv, 'y': jdec(xc), 'xt': t, 'yt': 'dec', 'n': n, 'acc': 0, 'form': i % 4})
+                        for op in ops:
+                            i += 1
+                            n = i % 19
+                            if pos == 0:
+                                calls.append({'ev': 'bin', 't': 1, 'op': op, 'x': jdec(xc), 'y': iv, 'xt': 'dec', 'yt': t, 'n': n, 'acc': 0, 'form': i % 4})
+                            else:
+                                calls.append({'ev': 'bin', 't': 1, 'op': op, 'x': iv, 'y': jdec(xc), 'xt': t, 'yt': 'dec', 'n': n, 'acc': 0, 'form': i % 4})
     run_vectors_with_modes(c, calls, 'intforms')
+
+
+def max_quotient_cases():
+    """(x, y, k): x * 10^k = MAX * y + r with 0 < r < y - the floor quotient is the largest coefficient, so every mode that
+    rounds up must signal overflow and every mode that rounds down must return exactly i128::MAX"""
+    MAXC = 2**127 - 1
+    out = []
+    for k in (1, 2, 3):
+        pk = 10**k
+        ys = [y for y in range(3, pk) if y % 2 and y % 5]
+        if k == 3:
+            ys = ys[::13]
+        for y in ys:
+            r = (-MAXC * y) % pk
+            if 0 < r < y:
+                out.append(((MAXC * y + r) // pk, y, k))
+    return out
+
+
+def g_maxquot(c, kind):
+    calls = []
+    cases = max_quotient_cases()
+    for mode in MODES:
+        calls.append({'ev': 'set', 't': 1, 'mode': mode})
+        for i, (x, y, k) in enumerate(cases):
+            for sx, sy in ((1, 1), (-1, 1), (1, -1), (-1, -1)):
+                if kind == 'div':
+                    q = i % 16
+                    p = 18 + q - k
+                    if p > 18:
+                        q, p = k, 18
+                    for op in ('div', 'checked_div'):
+                        calls.append({'ev': 'bin', 't': 1, 'op': op, 'x': jdec((sx * x, p)), 'y': jdec((sy * y, q)), 'xt': 'dec', 'yt': 'dec', 'n': 0, 'acc': 0, 'form': i % 4})
+                elif kind == 'div_rounded':
+                    q = i % 10
+                    n = max(k - q, 0) + (i % 5)
+                    p = n + q - k
+                    if 0 <= p <= 18 and n <= 18:
+                        calls.append({'ev': 'bin', 't': 1, 'op': 'div_rounded', 'x': jdec((sx * x, p)), 'y': jdec((sy * y, q)), 'xt': 'dec', 'yt': 'dec', 'n': n, 'acc': 0, 'form': i % 4})
+                else:
+                    calls.append({'ev': 'wide', 't': 1, 'op': 'i128_shifted_div_rounded', 'a': jnum(sx * x), 'b': jnum(0), 'k': k, 'm': jnum(sy * y), 'mode': mode})
+                    if sy > 0:
+                        calls.append({'ev': 'wide', 't': 1, 'op': 'i128_shifted_div_mod_floor', 'a': jnum(sx * x), 'b': jnum(0), 'k': k, 'm': jnum(y), 'mode': mode})
+    run_vectors_with_modes(c, calls, 'maxquot')
 
 
 def plan_C01(c):
@@ -173,6 +217,7 @@ def plan_C02(c):
 def plan_C03(c):
     c.mc('MC_SpecLaws', cfg='MC_SpecLaws' if c.tier != 'quick' else 'MC_SpecLaws_quick')
     g_small(c, ['div', 'checked_div'])
+    g_maxquot(c, 'div')
     g_intforms(c, ['div', 'checked_div'], with_modes=c.tier != 'quick')
     if c.tier != 'quick':
         g_bounds(c, ['div', 'checked_div'], with_modes=True)
@@ -183,6 +228,7 @@ def plan_C04(c):
     c.mc('MC_Refine', cfg='MC_Refine_ok' if c.tier == 'quick' else 'MC_Refine_ok_full')
     c.mc('MC_Refine', cfg='MC_Refine_trunc_first', expect='violation')      # the double rounding of finding F2 must be rejected
     g_small(c, ['div_rounded', 'mul_rounded', 'quantize'])
+    g_maxquot(c, 'div_rounded')
     g_intforms(c, ['div_rounded', 'quantize'], with_modes=c.tier != 'quick')
     v(c, 'c04', 5000, 150000)
 
@@ -284,6 +330,21 @@ def plan_C13(c):
         frac = [0, 1, full, full // 3, 1 << (fb - 1), (1 << (fb - 1)) + 1, full - 1, 0x2AAAA][fc] & full
         calls.append({'ev': 'fromfloat', 't': 1, 'w': w, 'sign': sg, 'bexp': bexp, 'frac': jnum(frac)['m']})
     run_vectors(c, calls, 'floats')
+    # the floats nearest to the decimal ties (k + 1/2) * 10^-j around the 18-digit rounding position, and their neighbours
+    import struct
+    calls = []
+    for k in list(range(0, 40)) + [99, 100, 12345, 10**6, 10**9 + 7]:
+        for j in (17, 18, 19):
+            val = float('%d5e-%d' % (k, j + 1))
+            for w in (64, 32):
+                bits = struct.unpack('<Q', struct.pack('<d', val))[0] if w == 64 else struct.unpack('<I', struct.pack('<f', val))[0]
+                fb = 52 if w == 64 else 23
+                for off in (-1, 0, 1):
+                    for sg in (0, 1):
+                        b = bits + off
+                        calls.append({'ev': 'fromfloat', 't': 1, 'w': w, 'sign': sg, 'bexp': (b >> fb) & ((1 << (11 if w == 64 else 8)) - 1),
+                                      'frac': jnum(b & ((1 << fb) - 1))['m']})
+    run_vectors(c, calls, 'decties')
     v(c, 'c13', 3000, 100000)
 
 
@@ -300,7 +361,7 @@ def plan_C14(c):
         if coef > MAXC:
             continue
         ty = INT_TYPES10[(i + i // 10) % 10]
-        calls.append({'ev': 'toint', 't': 1, 'ty': ty, 'x': jdec((sg * coef, f))})
+        calls.append({'ev': 'toint', 't': 1, 'ty': ty, 'x': jdec((sg * coef, f))})      # integral iff k >= f
         if i % 3 == 0 and coef + 1 <= MAXC:
             calls.append({'ev': 'toint', 't': 1, 'ty': ty, 'x': jdec((sg * (coef + 1), f))})
     run_vectors(c, calls, 'ints')
@@ -316,7 +377,7 @@ def plan_C15(c):
     g_operands(c, lambda x, i: [{'ev': 'un', 't': 1, 'op': op, 'x': x, 'n': 0} for op in uops] + [{'ev': 'obs', 't': 1, 'op': op, 'x': x} for op in oops])
     # the constants the predicates are stated against
     consts = [{'ev': 'const', 't': 1, 'name': n} for n in ['ZERO', 'ONE', 'NEG_ONE', 'TWO', 'TEN', 'MAX', 'MIN', 'DELTA', 'default', 'nt_zero', 'nt_one', 'MAX_N_FRAC_DIGITS']]
-    consts += [{'ev': 'intratio', 't': 1, 'ty': t, 'v': jnum(int_class(t, k))} for t in INT_TYPES9 for k in (1, 2, 7, 9)]
+    consts += [{'ev': 'intratio', 't': 1, 'ty': t, 'v': jnum(int_class(t, k))} for t in INT_TYPES9 for k in (1, 2, 3, 6, 7)]
     run_vectors(c, consts, 'consts')
     v(c, 'c15', 6000, 200000)
 
@@ -324,6 +385,7 @@ def plan_C15(c):
 def plan_C16(c):
     c.mc('MC_Knuth', cfg='MC_Knuth_ok' if c.tier == 'quick' else 'MC_Knuth_ok_w4')
     c.mc('MC_Knuth', cfg='MC_Knuth_f1', expect='violation')     # the sign fix-up of finding F1 must be rejected
+    g_maxquot(c, 'wide')
     v(c, 'c16', 4000, 120000)
 
 
@@ -333,12 +395,13 @@ INT_TYPES9 = ['u8', 'i8', 'u16', 'i16', 'u32', 'i32', 'u64', 'i64', 'i128']
 INT_RANGE = {'u8': (0, 2**8 - 1), 'i8': (-2**7, 2**7 - 1), 'u16': (0, 2**16 - 1), 'i16': (-2**15, 2**15 - 1), 'u32': (0, 2**32 - 1),
              'i32': (-2**31, 2**31 - 1), 'u64': (0, 2**64 - 1), 'i64': (-2**63, 2**63 - 1), 'i128': (-(2**127 - 1), 2**127 - 1)}
 X_CLASSES = [(0, 0), (0, 3), (1, 0), (10, 1), (1000, 3), (-1, 0), (15, 1), (-25, 1), (12345, 3), (7, 18), (-3, 17),
-             (2**127 - 1, 0), (-(2**127 - 1), 2), (10**18, 18), (5 * 10**17, 18), (17014118346046923173168730371588410572, 1)]
+             (2**127 - 1, 0), (-(2**127 - 1), 2), (10**18, 18), (5 * 10**17, 18), (17014118346046923173168730371588410572, 1),
+             (-100, 2), (-700, 2), (700, 2), (-10**18, 18)]       # integral values written with trailing zeros (equal to the integer classes -1, -7, 7)
 
 
 def int_class(ty, ii):
     lo, hi = INT_RANGE[ty]
-    return [0, 1, 2, 3, 7, 10, hi, hi - 1, lo, lo + 1, -1 if lo < 0 else 5, -7 if lo < 0 else 100][ii - 1]
+    return [0, 1, -1 if lo < 0 else 5, 7, -7 if lo < 0 else 100, hi, lo, 2, 10, hi - 1, lo + 1, 3][ii - 1]
 
 
 def plan_C17(c):
@@ -354,11 +417,12 @@ def plan_C17(c):
             calls.append({'ev': 'set', 't': 1, 'mode': modes4[i // per]})
         opn = FORM_OPS[op - 1]
         xcl = x_classes_for(INT_TYPES9[ty]) if ty < 9 else X_CLASSES
-        # the last five class indices of the grid address the Decimal images of the integer type's bounds
-        x = jdec(xcl[xi - 1] if xi <= len(X_CLASSES) - 5 or ty == 9 else xcl[len(X_CLASSES) + (xi - 1) % 5])
+        if xi > len(xcl):
+            continue
+        x = jdec(xcl[xi - 1])
         n = (xi + ii) % 19
         if ty == 9:
-            y = jdec(X_CLASSES[(xi * 5 + ii) % len(X_CLASSES)])
+            y = jdec(X_CLASSES[(xi * 7 + ii) % len(X_CLASSES)])
             if pos == 1:
                 continue
             calls.append({'ev': 'forms', 't': 1, 'op': opn, 'x': x, 'y': y, 'xt': 'dec', 'yt': 'dec', 'n': n})
